@@ -514,6 +514,73 @@ def histLine (padSize addrLen : Nat) (ws : List String) : String :=
     | _, _, _ => "bad-op"
   | _ => "bad-op"
 
+/-! ### `inc` lines (C13 harness): incarnations of one request id, collector + the real stage
+
+Every instance is a pipeline with an OWN share on a content class (fed to its stage before it registers,
+as `dispatchSign` does) in a 2-of-2 group; an arrival is the peer's valid share for a request id on a
+content class.  `r<h>.<j>.<c>` registers instance `h` for id `j` with own content class `c`,
+`a<j>.<c>` an arrival, `c<h>` the cancellation, `x` a foreign message.  The collector routes by id only
+(`Collector.step`); the stage counts a share only if its content is its own (`accepts`, F18 guard): a
+share of an earlier incarnation of the id reaches the later one and is skipped unless it is a share on
+the later one's content.  Output: the content class each instance reported, or `-`. -/
+def incContent (k : Nat) : Bytes := UInt8.ofNat k :: List.replicate 20 0xad
+
+def incLine (ws : List String) : String :=
+  match ws with
+  | [rs, evs] =>
+    match (rs.splitOn ";").mapM ofHex with
+    | none => "bad-op"
+    | some rids =>
+      let toks := if evs == "-" then [] else evs.splitOn ","
+      -- (collector event, content class of an arrival / own class of a registration)
+      let parsed : Option (List (Collector.Ev × Nat)) := ((List.range toks.length).zip toks).mapM (fun (p : Nat × String) =>
+        match p.2.toList with
+        | 'a' :: rest =>
+          match (String.ofList rest).splitOn "." with
+          | [j, c] => do
+            let j ← j.toNat?
+            let c ← c.toNat?
+            let r ← rids[j]?
+            pure (Collector.Ev.arrive { rid := r, tag := p.1 }, c)
+          | _ => none
+        | 'r' :: rest =>
+          match (String.ofList rest).splitOn "." with
+          | [h, j, c] => do
+            let h ← h.toNat?
+            let j ← j.toNat?
+            let c ← c.toNat?
+            let r ← rids[j]?
+            pure (Collector.Ev.register h r, c)
+          | _ => none
+        | 'c' :: rest => (String.ofList rest).toNat?.map (fun h => (Collector.Ev.cancel h, 0))
+        | ['x'] => some (Collector.Ev.other, 0)
+        | _ => none)
+      match parsed with
+      | none => "bad-op"
+      | some pes =>
+        let es := pes.map (·.1)
+        let contents : List Bytes := (List.range 4).map incContent
+        let C := symCrypto contents 2 2
+        let hs := Collector.instancesOf es
+        if hs.isEmpty then "none" else
+        String.intercalate ";" (hs.map (fun h =>
+          -- the first registration of h: its request id and own content class
+          let first := pes.find? (fun pe => match pe.1 with | .register h' _ => h' == h | _ => false)
+          match first with
+          | some (.register _ r, c) =>
+            let own : Msg := { index := 0, rid := r, content := some (incContent c), sig := some [1, 0, UInt8.ofNat c] }
+            let msgs : List (Option Msg) := (Collector.deliveries es h).map (fun sh =>
+              (pes[sh.tag]?).map (fun pe =>
+                { index := 0, rid := sh.rid, content := some (incContent pe.2), sig := some [1, 1, UInt8.ofNat pe.2] }))
+            let st := recoverStage C 2 20 (some own :: msgs)
+            match st.out with
+            | rep :: _ => match rep.sig with
+              | [9, k] => s!"h{h}=c{k.toNat}"
+              | _ => s!"h{h}=?"
+            | [] => s!"h{h}=-"
+          | _ => s!"h{h}=-"))
+  | _ => "bad-op"
+
 def stepLine (padSize addrLen : Nat) (line : String) : String :=
   match words line with
   | "ev" :: rest => evLine padSize addrLen rest
